@@ -282,7 +282,10 @@ def step (line : String) : String :=
       | [rs, act, m] => some (parseNats rs,
           if m == "1" then ⟨String.ofList ((parseNats act).map Char.ofNat), true⟩ else ⟨if act == "_" then "" else act, false⟩)
       | _ => none
-    let e : Eng := { mainTbl := norm (parseTbl mtbl), isEmacs := em == "1", viInsert := em != "1", registered := parseList regs "," }
+    -- em: "1" / "0" (Emacs / Vi insert), followed by "m" when output-meta is on (self-insert does not quote)
+    let emacs := em.startsWith "1"
+    let om := em.endsWith "m"
+    let e : Eng := { mainTbl := norm (parseTbl mtbl), isEmacs := emacs, viInsert := !emacs, registered := parseList regs "," }
     let C : MLoop.Cmds := { run := fun b cmd s =>
       if !cmd then s
       else if b.action == "accept-line" then { s with done := true }
@@ -293,7 +296,8 @@ def step (line : String) : String :=
     let hex2 (n : Nat) : String := String.ofList [Nat.digitChar (n / 16 % 16), Nat.digitChar (n % 16)]
     let hex (l : List Nat) : String := String.join ((utf8 l).map hex2)
     let probes := (s.log.filter fun (a, _) => a != "self-insert").map fun (a, ks) => s!"{a}:{hex ks}"
-    let line := (s.log.filter fun (a, _) => a == "self-insert").flatMap fun (_, ks) => (ks.take 1).flatMap Loop.quote
+    let line := (s.log.filter fun (a, _) => a == "self-insert").flatMap fun (_, ks) =>
+      (ks.take 1).flatMap fun k => if om && k != 0x1b then [k] else Loop.quote k
     let last := if !ok then "FUEL" else if s.done then s!"line:{hex line}" else "blocked"
     " ".intercalate (probes ++ [last])
   | ["local", emacs, isearch, regs, tbl, chunks] =>
